@@ -392,6 +392,10 @@ def run(facts, res):
     def _reg_guard_ok(l):
         if l.kind == "variant":
             return bool(l.variants) and l.variants <= {"Ok", "Some", "Continue"}
+        if l.kind == "cmp" and l.term[1] in ("Eq", "Ne") and any(x[0] == "discr" or (x[0] == "call" and callee_name(x) == "discriminant_value") for x in walk(l.term)) and \
+                not any(x[0] == "call" and callee_name(x) not in ("discriminant_value", "ok", "branch", "from", "next", "into_iter", "iter", R.name("fetcher"), R.name("loader"), "as_ref", "as_deref")
+                        and x[4] is not None and x[4].krate in ("melda",) for x in walk(l.term)):
+            return True     # a variant test written as a comparison of the discriminant (a joined Option / Result of the per-item steps)
         if l.kind == "call":
             n_ = callee_name(l.term)
             if n_ in ("contains_key", "contains", "is_err", "is_none", "is_empty"):
